@@ -152,5 +152,10 @@ FAMILIES = {
         {'family': 'idwrap', 'knobs': {}, 'quick': 200, 'thorough': 3000, 'first': 300000},
         # interactions that end with their connection, between two fragments of an inbound frame; the id is used again after the reconnect
         {'family': 'reconnect', 'knobs': {'who': 'app', 'p_stale_fragments': 1.0}, 'quick': 200, 'thorough': 3000, 'first': 400000},
+        # the interactions driven through the Rx / ReactiveX front ends (publishers made from observables / async generators): whatever
+        # ends them - disposal, a CANCEL before any credit, errors - both stream tables are empty afterwards
+        {'family': 'adapters', 'knobs': {}, 'quick': 250, 'thorough': 4000, 'first': 600000},
+        {'family': 'adapters_mixed', 'knobs': {}, 'quick': 150, 'thorough': 2500, 'first': 650000},
+        {'family': 'adapters_client', 'knobs': {}, 'quick': 250, 'thorough': 4000, 'first': 680000},
     ],
 }
